@@ -27,6 +27,7 @@ class Obligation:
         self.ms = 0.0
         self.witness = None
         self.site = None          # where the path leaves the spec (raise origin)
+        self.bounded = None       # bound(s) this path relied on (bounded stand-in), else None
         self.note = ''
 
     @property
@@ -268,6 +269,8 @@ class Verifier:
             ob = Obligation(fi.qualname, kind, label, path, cprops or props, text)
             ob.site = site
             ob.note = note
+            if I.bounds_used:
+                ob.bounded = sorted(I.bounds_used)
             self.discharge(I, ob, goal, inputs)
             rep.obligations.append(ob)
             return ob
